@@ -1,4 +1,5 @@
 import XlModel.Sheets
+import XlModel.SheetsCalc
 import XlModel.Drv.Util
 /-!
 Line-protocol driver for C16.  State: the `Impl` state and the `Spec` book,
@@ -8,6 +9,8 @@ both advanced by every op line.  Output per line:
 
 ops: reset | new h | del h | copy i j | move h h | ren h h | vis h b b | act i |
      grp h* | ungrp | defn k h | setc h v | save | chk h | gidx h | gnm i
+     | calc k id entries  (stateless: DeleteSheet of the sheet with id `id` in a k-sheet workbook whose
+     calcChain is `entries` = i.hexR,… ; answer: the remaining chain or nil)
      (gidx / gnm: pure reads of GetSheetIndex / GetSheetName on the current state)
 -/
 namespace XlModel.Drv.C16
@@ -103,6 +106,17 @@ def resultTag (s : St) (op : Op) : String :=
     | none => "ok"
     | some e => e.tag
 
+def parseCalc (e : String) : Option (List CalcC) :=
+  if e = "-" then some [] else
+  (e.splitOn ",").mapM fun x => match x.splitOn "." with
+    | [i, h] => match (if i.length ≤ 9 then i.toNat? else none), unhexS h with
+      | some i, some r => some ⟨r, i⟩
+      | _, _ => none
+    | _ => none
+
+def showCalc (cs : List CalcC) : String :=
+  if cs.isEmpty then "nil" else joinWith "," (cs.map fun c => s!"{c.i}.{hexS c.r}")
+
 def stepLine (st : St × Spec.Book) (w : List String) : (St × Spec.Book) × String :=
   match w with
   | ["reset"] =>
@@ -113,6 +127,11 @@ def stepLine (st : St × Spec.Book) (w : List String) : (St × Spec.Book) × Str
       | .ok _ => "ok"
       | .error e => e.tag)
     | none => (st, "bad-op")
+  | ["calc", k, id, e] => match (if k.length ≤ 9 then k.toNat? else none),
+      (if id.length ≤ 9 then id.toNat? else none), parseCalc e with
+    | some k, some id, some cs =>
+      if 2 ≤ k ∧ k ≤ 6 ∧ 1 ≤ id ∧ id ≤ k then (st, showCalc (deleteCalcChain cs id [])) else (st, "bad-op")
+    | _, _, _ => (st, "bad-op")
   | ["gidx", h] => match unhexS h with
     | some n => (st, match getSheetIndex st.1 n with
       | .ok (some i) => s!"{i}"
